@@ -82,7 +82,63 @@ impl<'a> Gen<'a> {
     }
 
     fn number(&mut self) -> String {
-        self.pick(&NUM_POOL)
+        if self.rng.chance(2, 3) {
+            return self.pick(&NUM_POOL);
+        }
+        // 2^k for any k up to 300 (beyond every machine integer width), and its neighbours
+        let k = match self.rng.below(4) {
+            0 => self.rng.below(70),
+            1 => [63, 64, 65, 127, 128, 129, 191, 192, 255, 256, 257][self.rng.below(11)],
+            _ => self.rng.below(301),
+        };
+        let mut digits: Vec<u8> = vec![1]; // little-endian decimal
+        for _ in 0..k {
+            let mut carry = 0;
+            for d in digits.iter_mut() {
+                let v = *d * 2 + carry;
+                *d = v % 10;
+                carry = v / 10;
+            }
+            if carry > 0 {
+                digits.push(carry);
+            }
+        }
+        match self.rng.below(6) {
+            0 => {
+                // 2^k + 1
+                let mut i = 0;
+                loop {
+                    if i == digits.len() {
+                        digits.push(1);
+                        break;
+                    }
+                    if digits[i] < 9 {
+                        digits[i] += 1;
+                        break;
+                    }
+                    digits[i] = 0;
+                    i += 1;
+                }
+            }
+            1 if k > 0 => {
+                // 2^k - 1
+                let mut i = 0;
+                while digits[i] == 0 {
+                    digits[i] = 9;
+                    i += 1;
+                }
+                digits[i] -= 1;
+                while digits.len() > 1 && *digits.last().unwrap() == 0 {
+                    digits.pop();
+                }
+            }
+            _ => {}
+        }
+        let mut s: String = digits.iter().rev().map(|d| (b'0' + d) as char).collect();
+        if self.rng.chance(1, 12) {
+            s = format!("0{}", s);
+        }
+        s
     }
 
     fn string_lit(&mut self) -> String {
@@ -98,6 +154,10 @@ impl<'a> Gen<'a> {
             "\"esc \\\" \\n \\x41 \\u0041\"",
             "'single'",
             "\"part one \" \"part two which is long enough to exceed\"",
+            "\"ab\" \"cd\"",
+            "\"fifteen bytes..\" \"sixteen bytes...\"",
+            "\"sixteen bytes...\" \"sixteen bytes...\"",
+            "\"a\" \"b\" \"c\"",
             "\"\u{e9}\u{e9}\u{e9}\u{e9}\u{e9}\u{e9}\u{e9}\u{e9}\u{e9}\u{e9}\u{e9}\u{e9}\u{e9}\u{e9}\u{e9}\u{e9}\"",
         ];
         self.pick(&pool)
